@@ -305,11 +305,86 @@ class RecordPositionNextDay(RecordPosition):
 CONTRACTS = [TimeAdd(2400), TimeAdd(24), TimeDiff(None), TimeDiff(24), TimeRange(24), TimeRange(2400),
              LayerRecords(), SpcRecords(), TimeRecords(), RecordPosition(), RecordPositionNextDay()]
 
+# ---------------------------------------------------------------------------
+# record readers of the meteorological formats: seek arithmetic == layout position
+# ---------------------------------------------------------------------------
+
+class MetPosition(Contract):
+    """__recordposition of the record readers of the one-variable-per-record formats equals the position of the
+    record in the published layout: every record has the same padded size; a time step holds R = recs_per_layer * nlayers
+    records (+ for wind a time header and a 12-byte record); (date, time) is the n-th instant on the start date"""
+    prop = 'C13'
+
+    def __init__(self, kind):
+        self.kind = kind
+        self.rel = 'camxfiles/%s/Read.py' % kind
+        self.target = '%s::%s.__recordposition' % (self.rel, kind)
+        self.name = '%s.__recordposition' % kind
+
+    def inputs(self, ctx, I):
+        a = dict(nlayers=ctx.fresh('nlayers'), start_date=ctx.fresh('start_date'), start_time=ctx.fresh('start_time', 'Real'),
+                 time_step=ctx.fresh('time_step', 'Real'), data_start_byte=ctx.fresh('data_start_byte'),
+                 padded_size=ctx.fresh('padded_size'), padded_time_hdr_size=ctx.fresh('padded_time_hdr_size'))
+        s = self_obj(I, self.rel, self.kind, a)
+        inp = dict(self=s, date=ctx.fresh('date'), time=ctx.fresh('time', 'Real'), k=ctx.fresh('k'), n=ctx.fresh('n'))
+        if self.kind == 'height_pressure':
+            inp['hp'] = ctx.fresh('hp')
+        if self.kind == 'wind':
+            inp['duv'] = ctx.fresh('duv')
+        return inp
+
+    def call_args(self, inp):
+        extra = [inp[x] for x in ('hp', 'duv') if x in inp]
+        return [inp['self'], inp['date'], inp['time'], inp['k']] + extra, {}
+
+    def requires(self, inp):
+        a = inp['self'].attrs
+        r = And(ge(a['nlayers'], 1), gt(a['time_step'], 0), ge(a['data_start_byte'], 0), gt(a['padded_size'], 8), ge(inp['n'], 0),
+                ge(inp['k'], 1), le(inp['k'], a['nlayers']), eq(inp['date'], a['start_date']),
+                eq(inp['time'], add(a['start_time'], mul(inp['n'], a['time_step']))), gt(a['padded_time_hdr_size'], 8))
+        if 'hp' in inp:
+            r = And(r, ge(inp['hp'], 0), le(inp['hp'], 1))
+        if 'duv' in inp:
+            r = And(r, ge(inp['duv'], 0), le(inp['duv'], 2), Implies(eq(inp['duv'], 0), eq(inp['k'], 1)))
+        return r
+
+    def spec_pos(self, inp):
+        a = inp['self'].attrs
+        n, k, P = inp['n'], inp['k'], a['padded_size']
+        if self.kind == 'one3d':
+            return add(a['data_start_byte'], mul(add(mul(n, a['nlayers']), sub(k, 1)), P))
+        if self.kind == 'height_pressure':
+            return add(a['data_start_byte'], mul(add(add(mul(n, mul(2, a['nlayers'])), mul(2, sub(k, 1))), inp['hp']), P))
+        if self.kind == 'wind':
+            H = a['padded_time_hdr_size']
+            step = add(add(H, 12), mul(mul(2, a['nlayers']), P))
+            base = add(a['data_start_byte'], mul(n, step))
+            within = add(add(H, mul(mul(2, sub(k, 1)), P)), ite(eq(inp['duv'], 2), P, 0))
+            return ite(eq(inp['duv'], 0), base, add(base, within))
+
+    def ensures(self, inp, res, I):
+        a = inp['self'].attrs
+        el = sub(T(inp['date'], inp['time'], 2400), T(a['start_date'], a['start_time'], 2400))
+        return [('lemma:elapsed-steps', eq(sym.trunc(sym.truediv(el, a['time_step'])), inp['n'])),
+                ('offset-equals-layout-position', eq(res, self.spec_pos(inp)))]
+
+    def real(self, inp):
+        import importlib
+        import_real()
+        cls = getattr(importlib.import_module('PseudoNetCDF.camxfiles.%s.Read' % self.kind), self.kind)
+        o = scaffold(cls, **{k: fl(v) for k, v in inp['self'].attrs.items()})
+        args = [inp['date'], fl(inp['time']), inp['k']] + [inp[x] for x in ('hp', 'duv') if x in inp]
+        return getattr(o, '_%s__recordposition' % self.kind)(*args)
+
+
+CONTRACTS += [MetPosition('one3d'), MetPosition('height_pressure'), MetPosition('wind')]
+
+
 META = dict(
     level='proof',
     technique='contract-based deductive verification (VCs from the real source by symbolic execution, z3/cvc5)',
     text='Seek arithmetic of the record reader (uamiv/Read.py: __layerrecords, __spcrecords, __timerecords, '
-         '__recordposition) is proved equal to the byte position of record (step n, species, layer) in the published '
+         '__recordposition) and of the one3d / height_pressure / wind record readers is proved equal to the byte position of the record in the published '
          'layout for all header values, modularly (callers see callee contracts only); timetuple.timeadd/timediff/'
          'timerange are proved (total time conserved, normalisation, exactly n yields, termination by variant).',
     note='Floats are mathematical reals (A-REAL); struct.calcsize trusted; the Memmap side reads the same layout through '
